@@ -323,8 +323,8 @@ def cases_gbu():
 def checks(tier):
     q = tier == "quick"
     return [
-        Check("pipelines", _run, strategy=cases(4 if q else 6), examples={"quick": 2000, "thorough": 16 * 20000}, shards={"quick": 4, "thorough": 16}),
-        Check("inners", _run, strategy=cases_inner(4 if q else 6), examples={"quick": 2000, "thorough": 16 * 20000}, shards={"quick": 4, "thorough": 16}),
-        Check("gbu_self", _run_gbu, strategy=cases_gbu(), examples={"quick": 600, "thorough": 16 * 5000}, shards={"quick": 4, "thorough": 16}),
-        Check("enders", _run, strategy=cases_forced(3 if q else 5), examples={"quick": 1000, "thorough": 16 * 10000}, shards={"quick": 4, "thorough": 16}),
+        Check("pipelines", _run, strategy=cases(4 if q else 6), examples={"quick": 2000, "thorough": 16 * 4000}, shards={"quick": 4, "thorough": 16}),
+        Check("inners", _run, strategy=cases_inner(4 if q else 6), examples={"quick": 2000, "thorough": 16 * 4000}, shards={"quick": 4, "thorough": 16}),
+        Check("gbu_self", _run_gbu, strategy=cases_gbu(), examples={"quick": 600, "thorough": 16 * 1000}, shards={"quick": 4, "thorough": 16}),
+        Check("enders", _run, strategy=cases_forced(3 if q else 5), examples={"quick": 1000, "thorough": 16 * 2000}, shards={"quick": 4, "thorough": 16}),
     ]
